@@ -20,7 +20,8 @@ theorem config_invariant_step (c : Config) (pre : List Op) (op : Op) :
 after any prefix as on a fresh configuration. -/
 theorem history_independent (c : Config) (pre : List Op) (op : Op) (h : op.decoderFree = true) :
     obs true c (runState true c State.init pre) op = obs true c State.init op := by
-  rw [(step_spec (reachable_inv c pre) op).2.1, (step_spec (Inv.init c) op).2.1,
+  have hw := isWire_of_decoderFree op h
+  rw [(step_spec (reachable_inv c pre) op).2.1 hw, (step_spec (Inv.init c) op).2.1 hw,
     specObs_decoderFree c _ op h, specObs_decoderFree c (State.init.decoders.length) op h]
 
 /-- The step lists a decoder built at any point of a history uses in `transform` / `recover` are those of a decoder
@@ -32,21 +33,21 @@ theorem history_independent_decoder (c : Config) (pre : List Op) (d : Nat) (w : 
     obs true c (step true c State.init (.mkC2Http k)).1 (if rc then .recover 0 w else .transform 0 w) := by
   have hi := reachable_inv c pre
   obtain ⟨dd, hdd, -⟩ := hi.decs _ (List.getElem_mem hd)
-  obtain ⟨hi1, hout⟩ := c2http_spec (Inv.init c) k hk
-  have hs1 : (step true c State.init (.mkC2Http k)).1 = (c2http true c State.init k).1 := by
+  obtain ⟨hi1, hout⟩ := c2http_spec (Inv.init c) k (initKeyState k) hk
+  have hs1 : (step true c State.init (.mkC2Http k)).1 = (c2http true c State.init k (initKeyState k)).1 := by
     simp only [step]; split <;> simp_all
-  have hlen : 0 < (c2http true c State.init k).1.decoders.length := by
+  have hlen : 0 < (c2http true c State.init k (initKeyState k)).1.decoders.length := by
     unfold C2Outcome at hout
     split at hout
-    · obtain ⟨_, _, _, e3⟩ := hout
+    · obtain ⟨_, _, _, e3, _⟩ := hout
       rw [e3]; simp
     · obtain ⟨x, e1, _, _⟩ := hout
       rw [hdd] at e1; cases e1
-  have hL : ∀ op, obs true c (runState true c State.init pre) op =
+  have hL : ∀ op, op.isWire = false → obs true c (runState true c State.init pre) op =
       specObs c (runState true c State.init pre).decoders.length op := fun op => (step_spec hi op).2.1
-  have hR : ∀ op, obs true c (c2http true c State.init k).1 op =
-      specObs c (c2http true c State.init k).1.decoders.length op := fun op => (step_spec hi1 op).2.1
-  rw [hs1, hL, hR]
+  have hR : ∀ op, op.isWire = false → obs true c (c2http true c State.init k (initKeyState k)).1 op =
+      specObs c (c2http true c State.init k (initKeyState k)).1.decoders.length op := fun op => (step_spec hi1 op).2.1
+  rw [hs1, hL _ (by cases rc <;> rfl), hR _ (by cases rc <;> rfl)]
   cases rc <;> simp [specObs, specSteps, hd, hlen]
 
 /-- Item assignment / deletion on a view or on a `settings_map` result raises TypeError and leaves the
@@ -81,10 +82,93 @@ theorem cached_views_disjoint (c : Config) (ops : List Op) (v v' : View) (m m' :
   (reachable_inv c ops).disj v v' m m' hne h1 h2
 
 /-- Every result is a function of the immutable settings tuple alone (`specObs` never looks at the heap). -/
-theorem results_determined_by_config (c : Config) (pre : List Op) (op : Op) :
+theorem results_determined_by_config (c : Config) (pre : List Op) (op : Op) (hw : op.isWire = false) :
     obs true c (runState true c State.init pre) op =
       specObs c (runState true c State.init pre).decoders.length op :=
-  (step_spec (reachable_inv c pre) op).2.1
+  (step_spec (reachable_inv c pre) op).2.1 hw
+
+/-! ### traffic recovery (`iter_recover_http`): decoders built from one configuration are independent -/
+
+/-- The result of `iter_recover_http` on decoder `d` is a function of `d`'s own key state (private key, session keys,
+own metadata cache) — of nothing else in the state. -/
+theorem wire_result_local (c : Config) (s : State) (d : Nat) (w : Wire) :
+    obs true c s (.recoverWire d w) =
+      match s.decoders[d]? with
+      | none => .noDecoder
+      | some dec => match wireRes dec.ks w with
+        | .inl ps => .packets ps
+        | .inr e => .exc e :=
+  wire_spec c s d w
+
+/-- From any point of a history on, the key state of an existing decoder `j` is the fold of ITS OWN
+`iter_recover_http` calls: constructing other decoders, recovering traffic with them, view accesses, profiles, …
+do not touch it. -/
+theorem decoders_independent (c : Config) (pre ops : List Op) (j : Nat)
+    (hj : j < (runState true c State.init pre).decoders.length) :
+    ((runState true c (runState true c State.init pre) ops).decoders[j]?).map Decoder.ks =
+      ((runState true c State.init pre).decoders[j]?).map (fun d => (ownWires j ops).foldl wireStep d.ks) :=
+  run_ks ops (reachable_inv c pre) j hj
+
+/-- Hence what decoder `j` (built with key variant `k` after ANY prefix) returns for a recorded message depends only on
+`k` and on the messages recovered with `j` itself — the same as on a fresh configuration. -/
+theorem wire_history_independent (c : Config) (pre ops : List Op) (k : KeyVariant) (hk : k ≠ .noKey) (w : Wire)
+    (hsucc : (step true c (runState true c State.init pre) (.mkC2Http k)).1.decoders.length =
+      (runState true c State.init pre).decoders.length + 1) :
+    obs true c (runState true c (step true c (runState true c State.init pre) (.mkC2Http k)).1 ops)
+        (.recoverWire (runState true c State.init pre).decoders.length w) =
+      match wireRes ((ownWires (runState true c State.init pre).decoders.length ops).foldl wireStep (initKeyState k)) w with
+      | .inl ps => .packets ps
+      | .inr e => .exc e := by
+  have hi := reachable_inv c pre
+  generalize runState true c State.init pre = s0 at *
+  obtain ⟨hi1, hout⟩ := c2http_spec hi k (initKeyState k) hk
+  have hs1 : (step true c s0 (.mkC2Http k)).1 = (c2http true c s0 k (initKeyState k)).1 := by
+    simp only [step]; split <;> simp_all
+  rw [hs1] at hsucc ⊢
+  unfold C2Outcome at hout
+  split at hout
+  · obtain ⟨_, _, _, e3, e4⟩ := hout
+    rename_i d _
+    have hj : s0.decoders.length < (c2http true c s0 k (initKeyState k)).1.decoders.length := by
+      rw [hsucc]; exact Nat.lt_succ_self _
+    have hks := run_ks ops hi1 s0.decoders.length hj
+    rw [e3] at hks
+    simp only [List.getElem?_append_right (Nat.le_refl _), Nat.sub_self, List.getElem?_cons_zero,
+      Option.map_some, e4] at hks
+    rw [wire_spec]
+    show (match (runState true c (c2http true c s0 k (initKeyState k)).1 ops).decoders[s0.decoders.length]? with
+      | none => DRes.noDecoder
+      | some dec => match wireRes dec.ks w with
+        | .inl ps => .packets ps
+        | .inr e => .exc e) = _
+    cases hd : (runState true c (c2http true c s0 k (initKeyState k)).1 ops).decoders[s0.decoders.length]? with
+    | none => rw [hd] at hks; cases hks
+    | some dec =>
+      rw [hd] at hks
+      simp only [Option.map_some, Option.some.injEq] at hks
+      dsimp only
+      rw [hks]
+  · obtain ⟨x, _, _, e3⟩ := hout
+    rw [e3] at hsucc
+    exact absurd hsucc (by omega)
+
+/-- The seeded variant (the metadata cache hung on the configuration object and shared by all decoders built from
+it) is NOT independent: decoder 1 (RSA key only) recovering the check-in after decoder 0 did hits the shared cache,
+never derives the session keys, and fails on the task. -/
+def runSharedCache : Bool → List KeyState → List (Nat × Wire) → List (List Nat ⊕ PyExc)
+  | _, _, [] => []
+  | cache, ds, (j, w) :: rest =>
+    match ds[j]? with
+    | none => runSharedCache cache ds rest
+    | some ks =>
+      let ks' := wireStep { ks with cached := cache } w     -- the decoder sees the shared cache
+      wireRes ks w :: runSharedCache (cache || (w == .checkin && ks.hasPriv)) (ds.set j { ks' with cached := false }) rest
+
+theorem shared_cache_variant_history_dependent :
+    runSharedCache false [initKeyState .rsaPriv, initKeyState .rsaPriv] [(0, .checkin), (1, .checkin), (1, .task)] =
+      [.inl [1], .inl [1], .inr .valueError] ∧
+    wireRes ([Wire.checkin].foldl wireStep (initKeyState .rsaPriv)) .task = .inl [2] := by
+  decide +kernel
 
 /-- The setting names the constructors look up exist in the `BeaconSetting` enum of the tree (generated table). -/
 theorem used_names_resolve :
